@@ -154,6 +154,10 @@ def comparison_pool():
             pool.append([x, y])
         pool.append({'k': x})
         pool.append({'k': x, 'j': 1})
+    # arrays of 16-40 elements that differ only in one place, by a boolean facing the number it equals in Python (true / 1, false / 0), also nested
+    seq = [float(i) for i in range(2, 18)]
+    pool += [[True] + seq, [1] + seq, [1.0] + seq, seq + [False], seq + [0], seq + [0.0], seq[:15] + [[True]] + [9.0], seq[:15] + [[1]] + [9.0],
+             seq + seq + [{'f': False}], seq + seq + [{'f': 0}], seq + seq + seq[:7] + [True], seq + seq + seq[:7] + [1], seq[:15] + [True], seq[:15] + [1]]
     # containers nested hundreds of levels deep (well within what the host stack allows): equal ones built separately, ones that differ only at the bottom
     pool += [_deep(250, 1.0, list), _deep(250, 1.0, list), _deep(250, 2.0, list), _deep(400, 1.0, list), _deep(250, 1.0, dict), _deep(250, 2.0, dict),
              _deep(300, 'x', list), _deep(205, 1, list)]
